@@ -161,6 +161,11 @@ fn batch(args: &Args) -> i32 {
     let t0 = std::time::Instant::now();
     let mut ctx = engines::Ctx::new(args);
     let mut trace: Option<std::fs::File> = None;
+    let mut hashes: Option<std::fs::File> = if args.u64("hashes", 0) == 1 {
+        Some(std::fs::File::create(format!("{}.hashes", out)).expect("hash file"))
+    } else {
+        None
+    };
     for i in from..to {
         let _ = cur.seek(SeekFrom::Start(0));
         let _ = cur.write_all(format!("{:>20}\n", i).as_bytes());
@@ -169,6 +174,9 @@ fn batch(args: &Args) -> i32 {
         let res = engines::run_one(&engine, run_seed, &mut ctx);
         agg.add(&res.stats);
         agg.add_counts(&res.counts);
+        if let Some(h) = hashes.as_mut() {
+            let _ = writeln!(h, "{} {:016x} {:016x} {} {}", i, res.stats.log_hash, res.stats.digest, res.stats.outcome, res.violations.len());
+        }
         if let Some(line) = &res.trace_line {
             if trace.is_none() {
                 trace = Some(std::fs::File::create(format!("{}.trace", out)).expect("trace file"));
